@@ -147,7 +147,7 @@ def jobs(tier):
                     "must_reach": ["ValueError"] + (["constructed"] if 1 <= n <= 65536 else [])})
     for n in META["bounds"][tier]["converse buffers"]:
         out.append({"name": f"accessors-n{n}", "h": "accessors", "params": {"n": n}, "must_reach": ["ok"]})
-        out.append({"name": f"accessors-after-reads-n{n}", "h": "accessors", "params": {"n": n, "pre": True}, "must_reach": ["ok"]})
+        out.append({"name": f"accessors-after-reads-n{n}", "h": "accessors", "params": {"n": n, "pre": True}, "width": max(128, 8 * n + 64), "must_reach": ["ok"]})
     from checks import c02
     out += c02.reframe_jobs(tier)
     return out
